@@ -203,8 +203,11 @@ def pick (members : List α) : List Nat → Outcome (List α)
       let rest ← pick members is
       return m :: rest
 
-/-- what ranging over `s.All()` yields.  `set.All` shuffles an index list first;
-`stable.All` and `sorted.All` yield `s.members` in order. -/
+/-- what RUNNING the sequence `s.All()` yields, `s` being the set object as it is when the sequence is run
+(not when it was obtained: /repo 4fb90a5 moved the index list and `r.Shuffle` of `set.All` inside the returned
+closure; `stable.All` and `sorted.All` always ranged over `s.members` inside theirs).  `set.All` lists the indices
+of the members and shuffles them — one draw from the shuffle source per run —; `stable.All` and `sorted.All` yield
+`s.members` in order and draw nothing. -/
 def MSet.all (sh : Shuffle σ) (s : MSet α) (g : σ) : Outcome (List α × σ) :=
   match s.impl with
   | .unordered _ => do
@@ -538,6 +541,26 @@ def runOps (sh : Shuffle σ) : List (Op α) → RegState α σ → Outcome (RegS
     let (st, o) ← stepOp sh st op
     let (st, os) ← runOps sh ops st
     return (st, o :: os)
+
+/-! ## sequences are handles
+
+`seq := s.All()` returns a closure over the set OBJECT.  Obtaining it reads nothing, lists nothing and draws
+nothing from the shuffle source; every run (`for m := range seq`) is `MSet.all` of the object as it is at that
+moment: run twice ⇒ two listings (two draws for the unordered set), never run ⇒ no draw, run after `Add` /
+`Remove` / `RemoveAll` ⇒ the members the set has then.  In the register machine the object is the register
+(the mutators `Add`/`Remove`/`RemoveAll` change a register's object in place). -/
+
+/-- the `iter.Seq` returned by `All()` of the set object in register `reg` -/
+structure Seq where
+  reg : Nat
+  deriving Repr, DecidableEq
+
+/-- `seq := regs[i].All()`: the state — registers and shuffle source — is returned as it was -/
+def obtainAll (st : RegState α σ) (i : Nat) : RegState α σ × Seq := (st, ⟨i⟩)
+
+/-- `for m := range seq` in state `st` (whatever happened since the sequence was obtained) -/
+def Seq.run (sh : Shuffle σ) (st : RegState α σ) (q : Seq) : Outcome (RegState α σ × Obs α) :=
+  stepOp sh st (.all q.reg)
 
 /-! ## slice store: which backing arrays a set-algebra call writes
 
